@@ -2,6 +2,7 @@
 PYTHONPATH=/repo), in the same syntax the OCaml driver prints for the model."""
 import json, os
 import parso
+from harness import common
 from parso.utils import split_lines, parse_version_string
 from parso.python.tokenize import tokenize_lines, tokenize
 from parso.python import prefix as pf
@@ -73,11 +74,15 @@ def show_tokens(toks):
 
 def ans_tok(v, lines, start=(1, 0), indents=None, first=True):
     try:
-        toks = list(tokenize_lines(lines, version_info=parse_version_string(v), indents=list(indents) if indents is not None else None,
-                                   start_pos=start, is_first_token=first))
+        with common.time_limit(20):
+            toks = list(tokenize_lines(lines, version_info=parse_version_string(v), indents=list(indents) if indents is not None else None,
+                                       start_pos=start, is_first_token=first))
     except Exception as e:
         return 'ERR ' + type(e).__name__
-    return show_tokens(toks)
+    try:
+        return show_tokens(toks)
+    except Exception as e:
+        return 'ERR malformed token (%s)' % type(e).__name__
 
 
 def ser(n, rid):
@@ -95,10 +100,11 @@ def ans_text(v, recover, code, start_symbol=None):
     g = parso.load_grammar(version=v)
     rid = meta()['grammars'][v]['rid']
     try:
-        if start_symbol is None:
-            m = g.parse(code, error_recovery=recover)
-        else:
-            m = g.parse(code, error_recovery=recover, start_symbol=start_symbol)
+        with common.time_limit(20):
+            if start_symbol is None:
+                m = g.parse(code, error_recovery=recover)
+            else:
+                m = g.parse(code, error_recovery=recover, start_symbol=start_symbol)
     except parso.ParserSyntaxError as e:
         l = e.error_leaf
         tt = l.token_type.name if hasattr(l.token_type, 'name') else l.token_type
